@@ -1,38 +1,11 @@
 #pragma once
 // lru_cache / mru_cache: vector<element> + list<size_t> partitioned at m_*_end + unordered_map<key,size_t>
-#include <optional>
-#include <cappuccino/allow.hpp>
-#include <cappuccino/lock.hpp>
-#include <cappuccino/peek.hpp>
 #ifdef C_IS_MRU
-#include <cappuccino/mru_cache.hpp>
-#define CL m_mru_list
-#define CE m_mru_end
-#define CP m_mru_position
-#define T_NAME "mru"
-#define T_POLICY P_MRU
-using C = cappuccino::mru_cache<uint64_t, uint64_t, cappuccino::thread_safe::TS>;
+#include "api_mru.hpp"
 #else
-#include <cappuccino/lru_cache.hpp>
-#define CL m_lru_list
-#define CE m_lru_end
-#define CP m_lru_position
-#define T_NAME "lru"
-#define T_POLICY P_LRU
-using C = cappuccino::lru_cache<uint64_t, uint64_t, cappuccino::thread_safe::TS>;
+#include "api_lru.hpp"
 #endif
 #include "vf_inv.hpp"
-#include "abs.hpp"
-#define T_TTL 0
-#define T_PEEK 1
-#define T_CAPPED 1
-#define T_PURGE 0
-#define T_HAS_CLEAN 0
-#define T_HAS_CLEAR 0
-#define T_HAS_AGE 0
-#define T_HAS_UPDTTL 0
-#define DECL_C(c) C c(HCAP)
-#define INSTALL_WORDS (4 * (HCAP + 1) + 1 + HCAP + 3 * (HCAP + 1) + 1 + 2 + 5 * HCAP + 8)
 
 template<class S>
 static void install(C& c, S& s)
@@ -109,13 +82,4 @@ static void alpha(C& c, Abs& a)
             cur         = c.CL.m_pool[cur].next;
         }
     }
-}
-static bool x_insert(C& c, uint64_t k, uint64_t v, uint8_t a, int64_t) { return c.insert(k, v, (cappuccino::allow)a); }
-static bool x_erase(C& c, uint64_t k) { return c.erase(k); }
-static void x_find(C& c, uint64_t k, bool pk, Res& r)
-{
-    auto o = c.find(k, pk ? cappuccino::peek::yes : cappuccino::peek::no);
-    r.ok   = o.has_value();
-    r.val  = r.ok ? *o : 0;
-    r.cnt  = 0;
 }
